@@ -28,7 +28,7 @@ from lib.core import Stream, cZ, clist, cbool
 GRID_ID = 1
 NONEX = sys.maxsize
 KINDS = ("M", "B", "P", "E", "C")
-FORMULAS = ("grid", "consumer", "producer", "battery", "pv", "pvids", "ev", "chp", "batsub", "pvsub")
+FORMULAS = ("grid", "consumer", "producer", "battery", "pv", "pvids", "ev", "chp", "batsub", "pvsub", "evsub")
 
 
 # ----------------------------------------------------------------------------- trees
@@ -219,10 +219,14 @@ def _eval_steps(steps, rd):
     return int(v)
 
 
-def _observe(engine, rd, depth=0):
+def _observe(engine, rd, rd2, depth=0):
+    """Terms, fallbacks and the value of a generated engine: under the readings [rd] of the case and
+    under [rd2], in which every dedicated meter is offset from the sum of its successors (so that
+    reading a meter instead of its successors, or the other way round, changes the number)."""
     steps = engine._builder._steps
     terms, fetchers = _fold_steps(steps)
     value = _eval_steps(steps, rd)
+    value2 = _eval_steps(steps, rd2)
     out = []
     multi = len({repr(f) for f in fetchers}) != len(fetchers)
     for f in fetchers:
@@ -230,11 +234,21 @@ def _observe(engine, rd, depth=0):
         fb = None
         if f._fallback is not None and depth == 0:
             sub = f._fallback._formula_generator.generate()
-            fb = _observe(sub, rd, depth + 1)
+            fb = _observe(sub, rd, rd2, depth + 1)
         out.append({"id": cid, "c": terms.get(cid, 0), "nz": bool(f._nones_are_zeros),
                     "fb": None if fb is None else {"terms": [[t["id"], t["c"]] for t in fb["terms"]], "value": fb["value"]}})
     out.sort(key=lambda t: t["id"])
-    return {"terms": out, "value": value, "dup": multi}
+    return {"terms": out, "value": value, "value2": value2, "dup": multi}
+
+
+def offset_readings(roots) -> dict[int, int]:
+    """Readings in which the k-th dedicated (non-grid) meter shows 2^k MW more than its successors."""
+    rd = readings(roots)
+    single = len(roots) == 1
+    ded = sorted(n["id"] for n in walk(roots) if dedicated(n) and not (single and n is roots[0]))
+    for k, i in enumerate(ded):
+        rd[i] += 10 ** 6 * 2 ** k
+    return rd
 
 
 def device_ids(roots):
@@ -260,6 +274,12 @@ def sel_of(case):
     return bids, (pv if psel is None else sorted(set(psel) & set(pv)))
 
 
+def esel_of(case):
+    """The charger ids of the EV-charger pool formula (default: every EV charger)."""
+    ev = device_ids(case["roots"])[2]
+    return ev if case.get("esel") is None else sorted(set(case["esel"]) & set(ev))
+
+
 def pool_inverters(roots, bids):
     """Inverters that are a predecessor of a requested battery, and whether the request is closed
     (every battery behind such an inverter is requested; otherwise the generator must refuse)."""
@@ -280,9 +300,12 @@ def run_generators(case, graph=None):
         if n["k"] == "B":
             for b in n["bats"]:
                 rd[b] = None
+    rd2 = dict(rd)
+    rd2.update(offset_readings(roots))
     bats, pv, ev = device_ids(roots)
     fb = bool(case.get("fb", True))
     bids, psel = sel_of(case)
+    esel = esel_of(case)
     FG = I.FG
     cfg = lambda ids=None: FG.FormulaGeneratorConfig(component_ids=ids, allow_fallback=fb)
     plan = {
@@ -294,19 +317,29 @@ def run_generators(case, graph=None):
         "pvids": (FG.PVPowerFormula, cfg(set(pv))),
         "ev": (FG.EVChargerPowerFormula, cfg(set(ev))),
         "chp": (FG.CHPPowerFormula, cfg()),
-        # pools over a subset: the battery ids case["bids"], the PV inverters case["psel"]
+        # pools over a subset: the battery ids case["bids"], the PV inverters case["psel"], the chargers case["esel"]
         "batsub": (FG.BatteryPowerFormula, cfg(set(bids))),
         "pvsub": (FG.PVPowerFormula, cfg(set(psel))),
+        "evsub": (FG.EVChargerPowerFormula, cfg(set(esel))),
     }
-    obs = {}
-    for name, (cls, c) in plan.items():
-        reg = I.ChannelRegistry(name="r")
-        ch = I.Broadcast(name="req")
-        try:
-            eng = cls("ns", reg, ch.new_sender(), c).generate()
-            obs[name] = _observe(eng, rd)
-        except Exception as e:  # noqa: BLE001  (the error class is the observation)
-            obs[name] = {"error": type(e).__name__}
+
+    def generate(names, ns):
+        out = {}
+        for name in names:
+            cls, c = plan[name]
+            reg = I.ChannelRegistry(name="r")
+            ch = I.Broadcast(name="req")
+            try:
+                eng = cls(ns, reg, ch.new_sender(), c).generate()
+                out[name] = _observe(eng, rd, rd2)
+            except Exception as e:  # noqa: BLE001  (the error class is the observation)
+                out[name] = {"error": type(e).__name__}
+        return out
+    obs = generate(list(plan), "ns")
+    # the same formulas once more on the SAME graph object (other namespace, other order): generation
+    # must not depend on what was generated before; only what differs is recorded
+    again = generate(list(reversed(list(plan))), "ns2")
+    obs["_again"] = {n: again[n] for n in plan if again[n] != obs[n]}
     I.cm._CONNECTION_MANAGER = None
     return obs
 
@@ -370,7 +403,103 @@ def expected_vectors(roots, case=None):
     prod = {**dev["P"], **dev["C"]}
     grid = {**cons, **prod, **dev["B"], **dev["E"]}
     return {"grid": grid, "consumer": cons, "producer": prod, "battery": dev["B"], "pv": dev["P"], "pvids": dev["P"],
-            "ev": dev["E"], "chp": dev["C"], "batsub": bsub, "pvsub": psub}
+            "ev": dev["E"], "chp": dev["C"], "batsub": bsub, "pvsub": psub,
+            "evsub": {i: 1 for i in esel_of(case or {"roots": roots})}}
+
+
+def spec_sources(case) -> dict[str, dict[int, int]]:
+    """Which component streams each formula is DOCUMENTED to read ({id: coefficient}), written from the
+    docstrings, independently of the Coq model: a DFS-based formula reads the first component of the
+    wanted chain on every path (a meter dedicated to the type counts, the grid meter does not); a formula
+    over requested inverters reads, with fallback allowed, a meter dedicated to the type instead of its
+    successors when ALL of them are requested, else the requested inverters; the EV-charger formula reads
+    the requested chargers; the CHP formula reads the CHP meters; grid power reads the grid successors;
+    consumer power reads the consumer meters minus every non-consumer chain below them."""
+    roots, fb = case["roots"], bool(case.get("fb", True))
+    single = len(roots) == 1
+    bids, psel = sel_of(case)
+    esel = esel_of(case)
+
+    def ded(n):
+        return None if (single and n is roots[0]) else dedicated(n)
+
+    def tops(nodes, kinds):
+        out = []
+        for n in nodes:
+            if (n["k"] != "M" and n["k"] in kinds) or (n["k"] == "M" and ded(n) is not None and ded(n) in kinds):
+                out.append(n)
+            elif n["k"] == "M":
+                out += tops(n["kids"], kinds)
+        return out
+
+    def by_req(nodes, kind, req):
+        out = []
+        for n in nodes:
+            if n["k"] == "M":
+                if fb and ded(n) == kind and all(k["id"] in req for k in n["kids"]):
+                    out.append(n)
+                else:
+                    out += by_req(n["kids"], kind, req)
+            elif n["k"] == kind and n["id"] in req:
+                out.append(n)
+        return out
+    plus = lambda ns: {n["id"]: 1 for n in ns}
+    allbat = {n["id"] for n in walk(roots) if n["k"] == "B" and n["bats"]}
+    poolb = {n["id"] for n in pool_inverters(roots, bids)[0]}
+    allpv = {n["id"] for n in walk(roots) if n["k"] == "P"}
+    if all(r["k"] == "M" and ded(r) is None for r in roots):
+        cmeters = list(roots)
+    else:
+        cmeters = [r for r in roots if r["k"] == "M" and ded(r) is None]
+    cons = plus(cmeters)
+    for n in tops([k for m in cmeters for k in m["kids"]], "BPEC"):
+        cons[n["id"]] = cons.get(n["id"], 0) - 1
+    return {
+        "grid": plus([r for r in roots if r["k"] != "C"]),
+        "consumer": cons,
+        "producer": plus(tops(roots, "PC")),
+        "pv": plus(tops(roots, "P")),
+        "battery": plus(by_req(roots, "B", allbat)),
+        "batsub": plus(by_req(roots, "B", poolb)),
+        "pvids": plus(by_req(roots, "P", allpv)),
+        "pvsub": plus(by_req(roots, "P", set(psel))) if psel else plus(tops(roots, "P")),
+        "ev": plus([n for n in walk(roots) if n["k"] == "E"]),
+        "evsub": plus([n for n in walk(roots) if n["k"] == "E" and n["id"] in esel]),
+        "chp": plus([n for n in walk(roots) if n["k"] == "M" and n["kids"] and all(k["k"] == "C" for k in n["kids"])]),
+    }
+
+
+def judge_sources(case, obs):
+    """WHICH streams the formulas read, judged on values: every dedicated meter is offset from its
+    successors, so a formula that reads another source than documented evaluates differently."""
+    roots = case["roots"]
+    if not wf_tree(roots):
+        return []
+    spec = spec_sources(case)
+    rd2 = offset_readings(roots)
+    closed = pool_inverters(roots, sel_of(case)[0])[1]
+    out = []
+    for name in FORMULAS:
+        f = obs[name]
+        if "error" in f or (name == "batsub" and not closed):
+            continue
+        want = sum(c * rd2[i] for i, c in spec[name].items())
+        if f["value2"] != want:
+            got = {t["id"]: t["c"] for t in f["terms"] if t["id"] != NONEX}
+            out.append({"what": f"{name}: reads other component streams than documented: with each dedicated meter offset from its "
+                                f"successors it evaluates to {f['value2']} W, the documented sources {dict(sorted(spec[name].items()))} "
+                                f"give {want} W (it reads {dict(sorted(got.items()))})", "finding": None})
+            continue
+        # a dedicated meter that stands in for its successors must name exactly them as its fallback
+        kids = {n["id"]: sorted(k["id"] for k in n["kids"]) for n in walk(roots) if dedicated(n) and not (len(roots) == 1 and n is roots[0])}
+        if case.get("fb", True) and name not in ("chp",):
+            for t in f["terms"]:
+                if t["id"] in kids and t["c"] == 1 and name != "consumer" or (name == "consumer" and t["id"] in kids and t["c"] == -1):
+                    have = None if t["fb"] is None else sorted(i for i, _ in t["fb"]["terms"])
+                    if have != kids[t["id"]]:
+                        out.append({"what": f"{name}: dedicated meter #{t['id']} is the primary but its fallback reads {have}, "
+                                            f"its successors are {kids[t['id']]}", "finding": None})
+    return out
 
 
 def f9_trigger(roots) -> bool:
@@ -463,12 +592,12 @@ def c_formula(f) -> str:
 HEADER = """From Verif Require Import model.Common model.Graph.
 (* the eight generated formulas, in the order of the harness: grid, consumer, producer, battery,
    pv (DFS), pv (all inverter ids), ev, chp, battery pool over the battery ids bids,
-   PV pool over the inverters psel; None = the generator raises *)
-Definition formulas (fb : bool) (roots : list node) (bids psel : list Z) : list (option (list term)) :=
+   PV pool over the inverters psel, EV-charger pool over the chargers esel; None = the generator raises *)
+Definition formulas (fb : bool) (roots : list node) (bids psel esel : list Z) : list (option (list term)) :=
   [grid_terms fb roots; Some (consumer_terms fb roots); Some (producer_terms fb roots);
    Some (battery_terms fb roots); Some (pv_terms fb roots); Some (pvids_terms fb roots);
    Some (ev_terms roots); chp_terms roots;
-   battery_pool_terms fb roots bids; Some (pv_pool_terms fb roots psel)].
+   battery_pool_terms fb roots bids; Some (pv_pool_terms fb roots psel); Some (ev_pool_terms roots esel)].
 (* same signed terms (id, sign, nones_are_zeros, fallback ids); same number, both when summing the
    readings of the nodes the terms name and when looking the ids up in the tree *)
 Definition check1 (roots : list node) (m : option (list term)) (e : option (list oterm * Z)) : bool :=
@@ -486,10 +615,10 @@ Fixpoint check_all (roots : list node) (ms : list (option (list term))) (es : li
   end.
 (* case: tree, allow_fallback, per formula (observed terms, value computed by the real steps),
    and what the harness believes about the premise and the F9 trigger *)
-Definition case_t : Type := (list node * bool * list Z * list Z * list (option (list oterm * Z)) * bool * bool)%type.
+Definition case_t : Type := (list node * bool * list Z * list Z * list Z * list (option (list oterm * Z)) * bool * bool)%type.
 Definition check (c : case_t) : bool :=
-  let '(roots, fb, bids, psel, exp, py_wf, py_trig) := c in
-  check_all roots (formulas fb roots bids psel) exp && Bool.eqb (wf roots) py_wf && Bool.eqb (f9_trigger roots) py_trig.
+  let '(roots, fb, bids, psel, esel, exp, py_wf, py_trig) := c in
+  check_all roots (formulas fb roots bids psel esel) exp && Bool.eqb (wf roots) py_wf && Bool.eqb (f9_trigger roots) py_trig.
 """
 
 
@@ -497,7 +626,7 @@ def case_term(case, obs) -> str:
     roots = case["roots"]
     exp = "[" + "; ".join(c_formula(obs[n]) for n in FORMULAS) + "]"
     bids, psel = sel_of(case)
-    return (f"(({c_roots(roots)}, {cbool(case.get('fb', True))}, {clist(bids)}, {clist(psel)}, {exp}, "
+    return (f"(({c_roots(roots)}, {cbool(case.get('fb', True))}, {clist(bids)}, {clist(psel)}, {clist(esel_of(case))}, {exp}, "
             f"{cbool(wf_tree(roots))}, {cbool(f9_trigger(roots))}) : case_t)")
 
 
@@ -644,7 +773,7 @@ def shrink_tree(case):
             yield {**case, "roots": r}
     if not case.get("fb", True):
         yield {**case, "fb": True}
-    for key in ("bids", "bsel", "psel"):
+    for key in ("bids", "bsel", "psel", "esel"):
         if case.get(key) is not None:
             yield {k: v for k, v in case.items() if k != key}
             for i in range(len(case[key])):
@@ -676,6 +805,9 @@ def with_subsets(case, rng):
         case["bids"] = sorted(bids)
     if pv and rng.random() < 0.8:
         case["psel"] = sorted(rng.sample(pv, rng.randint(1, len(pv))))
+    ev = sorted(n["id"] for n in walk(roots) if n["k"] == "E")
+    if ev and rng.random() < 0.8:
+        case["esel"] = sorted(rng.sample(ev, rng.randint(1, len(ev))))
     return case
 
 
@@ -754,6 +886,11 @@ class TreeStream(Stream):
             [B(2, [3], 5)], [E(2, 5)], [P(2, -5)], [M(2, [], 5)], [C(2, 1)], [C(2, 1), E(3, 1)],
             [M(2, [B(3, [], 5), B(4, [5], 6)], 0), E(6, 1)],                        # inverter without battery (outside premise)
         ]
+        evm = [M(2, [M(9, [E(10, 5), E(11, 7), E(12, 11)]), M(3, [B(4, [5], 10), B(6, [7], 20)]), M(8, [P(13, -1), P(14, -2)])], 3)]
+        for fb in (True, False):
+            yield {"roots": evm, "fb": fb, "esel": [10, 11], "psel": [13], "bids": [5]}
+            yield {"roots": evm, "fb": fb, "esel": [12]}
+            yield {"roots": [M(9, [E(10, 5), E(11, 7)]), E(12, 1)], "fb": fb, "esel": [10]}
         for t in trees:
             for fb in (True, False):
                 yield {"roots": t, "fb": fb}
@@ -798,7 +935,7 @@ class TreeStream(Stream):
 
     def show_term(self, case, obs):
         bids, psel = sel_of(case)
-        return f"(formulas {cbool(case.get('fb', True))} {c_roots(case['roots'])} {clist(bids)} {clist(psel)}, wf {c_roots(case['roots'])}, f9_trigger {c_roots(case['roots'])})"
+        return f"(formulas {cbool(case.get('fb', True))} {c_roots(case['roots'])} {clist(bids)} {clist(psel)} {clist(esel_of(case))}, wf {c_roots(case['roots'])}, f9_trigger {c_roots(case['roots'])})"
 
     def shrink(self, case):
         return shrink_tree(case)
@@ -848,6 +985,12 @@ class TreeStream(Stream):
             out.append("pv_pool_proper_subset")
             if any(dedicated(m) == "P" and 0 < sum(k["id"] in psel for k in m["kids"]) < len(m["kids"]) for m in meters):
                 out.append("pv_pool_subset_splits_a_dedicated_meter")
+        esel = esel_of(case)
+        alle = [n["id"] for n in nodes if n["k"] == "E"]
+        if esel and len(esel) < len(alle):
+            out.append("ev_pool_proper_subset")
+            if any(dedicated(m) == "E" and 0 < sum(k["id"] in esel for k in m["kids"]) < len(m["kids"]) for m in meters):
+                out.append("ev_pool_subset_splits_a_dedicated_meter")
         out += sharing_labels(roots)
         return out
 
@@ -1045,7 +1188,7 @@ class RefreshStream(Stream):
         parts = []
         for st in case["steps"]:
             bids, psel = sel_of(st)
-            parts.append(f"formulas {cbool(st.get('fb', True))} {c_roots(st['roots'])} {clist(bids)} {clist(psel)}")
+            parts.append(f"formulas {cbool(st.get('fb', True))} {c_roots(st['roots'])} {clist(bids)} {clist(psel)} {clist(esel_of(st))}")
         return "[" + "; ".join(parts) + "]"
 
     def shrink(self, case):
